@@ -628,6 +628,7 @@ def fixed_world(env, variant=0):
     w.edge(n2, g3, autosync=True)
     w.edge(n2, g4, autosync=True)
     w.edge(n1, g2, autoclean=True)
+    w.edge(n3, g2, autosync=True)                # an arrival on n3 (import sweeps) must create one request n3 -> g2
     return w, dict(n1=n1, n2=n2, n3=n3, n4=n4, f=f, f2=f2, req=req, g2=g2)
 
 
@@ -667,6 +668,21 @@ def fault_sweep(env, kind, variant=0, pathdir="none", mode="ok"):
                 ug = upd.UpdateableGroup(queue=q, group=o["g2"], nodes=[un["n2"]], idle=True)
                 w.put_bytes(o["n2"], o["f"], b"unregistered")
                 ug.io.pull(db.ArchiveFileCopyRequest.get(id=o["req"].id))
+            elif kind in ("import-event", "import-request"):
+                import pathlib
+                import verif_idext
+                from alpenhorn.daemon import auto_import
+                verif_idext.MODE[:] = ["first", 1]
+                newp = os.path.join(o["n3"].root, "acq", "sub" if variant % 2 else "", "new.dat")
+                os.makedirs(os.path.dirname(newp), exist_ok=True)
+                with open(newp, "wb") as fh:
+                    fh.write(b"fresh data")
+                rel = os.path.relpath(newp, o["n3"].root)
+                ireq = None
+                if kind == "import-request":
+                    ireq = db.ArchiveFileImportRequest.create(node=o["n3"], path=rel, recurse=False, register=True)
+                    before = envmod.dump_index()
+                auto_import.import_file(un["n3"], q, pathlib.PurePath(newp if kind == "import-event" else rel), True, ireq)
             queued = q.qsize
             envmod.verif_dbext.reset_counters()
             envmod.verif_dbext.CTL["fault_at"] = {k} if k >= 0 else set()
@@ -678,8 +694,21 @@ def fault_sweep(env, kind, variant=0, pathdir="none", mode="ok"):
         after = envmod.dump_index()
         with dmod._mutex:
             reserved = dict(dmod._reserved_bytes)
+        requeued = q.qsize
+        after2 = None
+        if kind.startswith("import") and k >= 0:
+            # the respawned worker / the next update pass: whatever was re-queued runs now, without faults
+            aborted1 = pmod.global_abort.is_set()
+            pmod.global_abort.clear()
+            if kind == "import-request" and not q.qsize:
+                for r_ in db.ArchiveFileImportRequest.select().where(db.ArchiveFileImportRequest.completed == 0):
+                    auto_import.import_file(un["n3"], q, pathlib.PurePath(r_.path), True, r_)      # what update_import does next pass
+            run_worker(q)
+            after2 = envmod.dump_index()
+            if aborted1:
+                pmod.global_abort.set()
         res = dict(kind=kind, k=k, variant=variant, route=pathdir, statements=n, exit_code=code, aborted=pmod.global_abort.is_set(),
-                   before=before, after=after, reserved=reserved, qsize=q.qsize, inprogress=q.inprogress_size,
+                   before=before, after=after, reserved=reserved, qsize=q.qsize, inprogress=q.inprogress_size, requeued=requeued, after2=after2,
                    dest_bytes=w.file_on(o["n2"], o["f"]), src_bytes=w.file_on(o["n1"], o["f"]),
                    del_bytes=w.file_on(o["n4"], o["f"]), ids=dict(req=o["req"].id, f=o["f"].id, n2=o["n2"].id, n1=o["n1"].id, n4=o["n4"].id))
         pmod.global_abort.clear()
@@ -717,6 +746,17 @@ def judge_fault(res, ref):
             probs.append("healthy destination copy recorded but the request is not completed (half-applied update)")
         if dest_healthy and res["dest_bytes"] != res["src_bytes"]:
             probs.append("healthy destination copy recorded without the source's bytes at the destination")
+    if res["kind"].startswith("import"):
+        # the import is all-or-nothing, and it is not lost: after the worker is replaced (event: the task re-queued itself;
+        # request: the next pass finds the request still pending) the index equals that of an undisturbed import
+        probs = [p for p in probs if not p.startswith("worker did not exit")]
+        final = res["after2"]
+        want = ref["after"]
+        strip = lambda d: {t: sorted(tuple(x[1:]) for x in d[t]) for t in ("acq", "file", "copy", "ireq", "req")}
+        if strip(final) != strip(want):
+            diff = {t: (strip(final)[t], strip(want)[t]) for t in ("acq", "file", "copy", "ireq", "req") if strip(final)[t] != strip(want)[t]}
+            probs.append(f"import lost or half-applied: after the failed attempt and the retry the index differs from an undisturbed import "
+                         f"(table: (got, expected)) {diff}")
     if res["kind"] == "delete":
         c = [c for c in a["copy"] if c[1] == ids["f"] and c[2] == ids["n4"]][0]
         if c[3] == "Y" and c[4] != "N":
